@@ -14,24 +14,35 @@ theorem upd_ne {α : Type} (f : Nat → α) {i j : Nat} (v : α) (h : j ≠ i) :
 
 theorem applyAll_not_mem (f : Nat → Part → Part) (l : List Nat) (P : Nat → Part) (j : Nat) (h : j ∉ l) :
     applyAll f l P j = P j := by
+  simp [applyAll, h]
+
+theorem applyAll_spec (f : Nat → Part → Part) (l : List Nat) (P : Nat → Part) (_hnd : l.Nodup) (j : Nat) :
+    applyAll f l P j = if j ∈ l then f j (P j) else P j := by
+  simp [applyAll]
+
+theorem applyLoop_not_mem (f : Nat → Part → Part) (l : List Nat) (P : Nat → Part) (j : Nat) (h : j ∉ l) :
+    applyLoop f l P j = P j := by
   induction l generalizing P with
   | nil => rfl
   | cons w l ih =>
     simp only [List.mem_cons, not_or] at h
-    simp only [applyAll]
+    simp only [applyLoop]
     rw [ih _ h.2, upd_ne _ _ h.1]
 
-theorem applyAll_spec (f : Nat → Part → Part) (l : List Nat) (P : Nat → Part) (hnd : l.Nodup) (j : Nat) :
-    applyAll f l P j = if j ∈ l then f j (P j) else P j := by
+/-- the sequential loop over a duplicate-free part list has exactly the pointwise effect used by the model -/
+theorem applyLoop_eq_applyAll (f : Nat → Part → Part) (l : List Nat) (P : Nat → Part) (hnd : l.Nodup) :
+    applyLoop f l P = applyAll f l P := by
+  funext j
+  rw [applyAll_spec f l P hnd j]
   induction l generalizing P with
-  | nil => simp [applyAll]
+  | nil => simp [applyLoop]
   | cons w l ih =>
     have hw : w ∉ l := (List.nodup_cons.mp hnd).1
     have hl : l.Nodup := (List.nodup_cons.mp hnd).2
-    simp only [applyAll]
+    simp only [applyLoop]
     by_cases hj : j = w
     · subst hj
-      rw [applyAll_not_mem _ _ _ _ hw]
+      rw [applyLoop_not_mem _ _ _ _ hw]
       simp
     · rw [ih _ hl, upd_ne _ _ hj]
       simp [hj]
